@@ -144,7 +144,7 @@ def cancel_sweep(job):
         C["base_histories"] = C.get("base_histories", 0) + 1
         k = 0
         for pos in range(1, len(base) + 1):
-            for form in range(8):
+            for form in range(9):
                 k += 1
                 if only and k != only[1]:
                     continue
@@ -163,6 +163,14 @@ def cancel_sweep(job):
                     run.request("resuming")  # cancel from resuming (or from whatever the resume led to)
                 run.request(["canceling", "canceled"][form % 2])
                 C["insertion_points"] = C.get("insertion_points", 0) + 1
+                if form == 8:
+                    # a rerun requested while the cancellation is still in progress must be refused
+                    if run.status() == "canceling" and run.inflight:
+                        evr = run.rerun(None)
+                        C["reruns_while_canceling"] = C.get("reruns_while_canceling", 0) + 1
+                        if evr["exc"] is None:
+                            run.viol("C10", "rerun_accepted_while_canceling", "a rerun was accepted while the workflow was canceling "
+                                     "with %d action(s) in flight; status now %s" % (len(run.inflight), run.status()), subject="rerun")
                 if form in (6, 7):
                     # another request after the cancel (at once, or after one more report): whatever the answer, the
                     # workflow stays canceling / canceled and nothing is offered
